@@ -67,15 +67,44 @@ def run(run, replay=None):
                 with lock:
                     confirmed[0] += 1
 
+        def registrar(i):
+            k = 0
+            while not stop.is_set():
+                k += 1
+                st_, _ = srv.rpc("RegisterWord", {"kind": "CommonNoun", "reading": "てすと", "word": "語%d_%d" % (i, k)}, timeout=10.0)
+                if st_ != "ok":
+                    errors.append(("registration", st_, 0))
+                    return
+
+        def affix_confirmer(i):
+            while not stop.is_set():
+                res = srv.conv("しんかこか", timeout=10.0)
+                if res[0] != "ok":
+                    errors.append(("conversion", res[0], 0))
+                    return
+                ts = [c["candidate"] for c in res[1]["candidates"]]
+                cid = str(ts.index("新過去か")) if "新過去か" in ts else "0"
+                st_, _ = srv.rpc("UpdateFrequency", {"session_id": res[1]["session_id"], "candidate_id": cid}, timeout=10.0)
+                if st_ != "ok":
+                    errors.append(("confirmation", st_, 0))
+                    return
+
         ths = [threading.Thread(target=reader, args=(i,)) for i in range(max(1, clients // 2))] + \
               [threading.Thread(target=confirmer, args=(i,)) for i in range(max(1, clients // 2))]
+        # the registration flood starts after the observed registration was sent, so that the observed entry is ahead
+        # of it in the updater's FIFO (with an injected per-entry delay the flood would otherwise starve the observation)
+        late = [threading.Thread(target=registrar, args=(i,)) for i in range(max(1, clients // 4))] + \
+               [threading.Thread(target=affix_confirmer, args=(i,)) for i in range(max(1, clients // 4))]
         for t in ths:
             t.start()
         time.sleep(0.3)
         t_reg0 = time.time()
         st, _ = srv.rpc("RegisterWord", {"kind": "Guess", "reading": "かかない", "word": "書かない"}, timeout=10.0)
         t_reg1 = time.time()
-        time.sleep(1.0 if not thorough else 2.0)
+        for t in late:
+            t.start()
+        ths += late
+        time.sleep(2.0 if not thorough else 5.0)
         stop.set()
         for t in ths:
             t.join(30)
